@@ -592,12 +592,7 @@ func (c *Ctx) rulesR5txmiss() {
 		}
 	}
 	n := 0
-	for _, r := range returnsOf(f) {
-		k, ok := constInt(retVals(r)[0])
-		if !ok || k != -1 {
-			continue
-		}
-		n++
+	reachNoScan := func(target *ssa.BasicBlock) bool {
 		seen := map[*ssa.BasicBlock]bool{}
 		var dfs func(b *ssa.BasicBlock) bool
 		dfs = func(b *ssa.BasicBlock) bool {
@@ -605,7 +600,7 @@ func (c *Ctx) rulesR5txmiss() {
 				return false
 			}
 			seen[b] = true
-			if b == r.Block() {
+			if b == target {
 				return true
 			}
 			for _, s := range b.Succs {
@@ -615,8 +610,27 @@ func (c *Ctx) rulesR5txmiss() {
 			}
 			return false
 		}
-		c.check(len(hdr) > 0 && !dfs(f.Blocks[0]), "C16.miss", fmt.Sprintf("TxIndex: not-found return#%d follows a scan of MsgTxs", n), r.Pos(),
-			"-1 is returned on a path that never walks MsgTxs in this call: a transition appended after the memo was filled is reported as unknown")
+		return dfs(f.Blocks[0])
+	}
+	for _, r := range returnsOf(f) {
+		v := retVals(r)[0]
+		// where the "not found" value comes from: the return itself, or the
+		// predecessor edges of a phi that carry the constant
+		var origins []*ssa.BasicBlock
+		if k, ok := constInt(v); ok && k == -1 {
+			origins = append(origins, r.Block())
+		} else if phi, ok := v.(*ssa.Phi); ok {
+			for i, e := range phi.Edges {
+				if k, ok := constInt(e); ok && k == -1 && i < len(phi.Block().Preds) {
+					origins = append(origins, phi.Block().Preds[i])
+				}
+			}
+		}
+		for _, ob := range origins {
+			n++
+			c.check(len(hdr) > 0 && !reachNoScan(ob), "C16.miss", fmt.Sprintf("TxIndex: not-found return#%d follows a scan of MsgTxs", n), r.Pos(),
+				"-1 is returned on a path that never walks MsgTxs in this call: a transition appended after the memo was filled is reported as unknown")
+		}
 	}
 	if n < 1 {
 		c.undecided("C16.miss: TxIndex has no `return -1`")
